@@ -995,8 +995,14 @@ func (st *state) closure(r *sim.Rand) {
 	var pf uint32
 	var perr error
 	if !sim.Guard("panic", func() { pf, perr = b.GetPingSlotFrequency(addr, time.Duration(r.Intn(1<<30))*time.Second) }) && perr == nil {
-		st.cmd("PingSlotChannelReq", fmt.Sprintf("ping-slot frequency %d", pf),
-			&lorawan.MACCommand{CID: lorawan.PingSlotChannelReq, Payload: &lorawan.PingSlotChannelReqPayload{Frequency: pf, DR: uint8(r.Intn(6))}})
+		// (the data-rate of the ping slot: one of the band's own - the RX2
+		// default, a data-rate of one of its channels - or any of the field's 16 values)
+		pingDR := uint8(r.Intn(16))
+		if d.RX2DataRate >= 0 && d.RX2DataRate <= 15 && r.Intn(2) == 0 {
+			pingDR = uint8(d.RX2DataRate)
+		}
+		st.cmd("PingSlotChannelReq", fmt.Sprintf("ping-slot frequency %d, data-rate %d", pf, pingDR),
+			&lorawan.MACCommand{CID: lorawan.PingSlotChannelReq, Payload: &lorawan.PingSlotChannelReqPayload{Frequency: pf, DR: pingDR}})
 		st.cmd("BeaconFreqReq", fmt.Sprintf("ping-slot/beacon frequency %d", pf),
 			&lorawan.MACCommand{CID: lorawan.BeaconFreqReq, Payload: &lorawan.BeaconFreqReqPayload{Frequency: pf}})
 	}
